@@ -56,8 +56,8 @@ func (a Any) CompletionAtPos(ctx context.Context, pos hcl.Pos) []lang.Candidate 
 			Elems: make([]schema.Constraint, len(elemTypes)),
 		}
 		for i, elemType := range elemTypes {
-			cons.Elems[i] = schema.LiteralType{
-				Type: elemType,
+			cons.Elems[i] = schema.AnyExpression{
+				OfType: elemType,
 			}
 		}
 
